@@ -417,6 +417,27 @@ def fam_typednone(agg, h, methods, all_expects):
                                 agg.skipped["dtype-validation-refuses"] += 1
 
 
+def fam_large(agg, h, methods, all_expects):
+    """tables of 255..300 rows on both sides (beyond CPython's small-int cache, beyond typical batch sizes): unique keys, one
+    duplicate at the very end, partially overlapping key ranges"""
+    for m in (255, 256, 257, 258, 300):
+        for rkind in ("unique", "one-dup-at-the-end", "shifted"):
+            lk = list(range(m))
+            rk = list(range(m)) if rkind == "unique" else (list(range(m - 1)) + [0] if rkind == "one-dup-at-the-end" else list(range(m // 2, m // 2 + m)))
+            for swap in (False, True):
+                a, b = (rk, lk) if swap else (lk, rk)
+                lkeys, rkeys = [(k,) for k in a], [(k,) for k in b]
+                lcols = [("k0", list(a)), ("lp", [100000 + i for i in range(len(a))])]
+                rcols = [("k0", list(b)), ("rp", [200000 + i for i in range(len(b))])]
+                agg.states += 1; agg.nontrivial += 1
+                for method in methods:
+                    for ex in (VALID if all_expects else ["many_to_many"]):
+                        L, R = tbl(lcols), tbl(rcols)
+                        case = {"family": "large tables", "rows": [len(a), len(b)], "right_keys": rkind, "swapped": swap, "method": method, "expect": ex}
+                        judge(agg, f"{method}.large", case, lambda: getattr(L, method)(R, left_on="k0", right_on="k0", expect=ex),
+                              method, ex, lcols, rcols, lkeys, rkeys, h, ())
+
+
 class _NotJudged(Exception):
     pass
 
@@ -426,7 +447,7 @@ class _S(str):
 
 
 FAMILIES = {"skew": fam_skew, "args": fam_args, "dupnames": fam_dupnames, "twice": fam_twice, "self": fam_self, "expectstr": fam_expectstr,
-            "namesake": fam_namesake, "dupkeys": fam_dupkeys, "typednone": fam_typednone}
+            "namesake": fam_namesake, "dupkeys": fam_dupkeys, "typednone": fam_typednone, "large": fam_large}
 
 
 def run_extra_unit(unit, methods, all_expects=False):
